@@ -73,7 +73,9 @@ def _text_parts(draw, referable):
     n = draw(st.integers(0, 5))
     parts = []
     for _ in range(n):
-        if referable and draw(st.integers(0, 2)) > 0:
+        if draw(st.integers(0, 5)) == 0:
+            parts.append(["c", draw(st.sampled_from(["managed by rally", "see docs/car.rst", "TODO: tune", "x"]))])  # {# a Jinja comment #}
+        elif referable and draw(st.integers(0, 2)) > 0:
             parts.append(["v", draw(st.sampled_from(referable)), draw(st.integers(0, 2))])
         else:
             parts.append(["t", draw(st.text(alphabet=TEXT_ALPHABET, max_size=24))])
